@@ -13,6 +13,9 @@ RULE = ('random FeatureLists / BioBaskets of 0-8 elements drawn from small pools
         'and collection operands, basket.fts= / add_fts with duplicate and unknown ids; plus an exhaustive box for the multi-key '
         'sort (all lists up to length 3 (quick) / 6 (thorough) over 4 elements with 2x2 key values, both directions) and all 256 Latin-1 '
         'code points through lower() and through the key-string split(); '
+        '320 (quick) / 3000 (thorough) HISTORIES of 2-6 calls on one collection (repeat calls, option changes, in-place edits between '
+        'calls, mutation of every not-in-place result, shared construction list) and 60/600 attach histories on one basket; a few '
+        'mixed-kind collections (outside the domain); '
         'non-trivial = distinct case whose result is neither empty nor the unchanged input')
 TRUSTED = ['CPython sorted() is a stable sort (modelled by the proven-stable insertion sort of lib/C16_StableSort.v and compared on '
            'tie-heavy inputs), dict insertion order, list.__contains__, str.lower/str.split/str.rsplit, operator module',
@@ -24,6 +27,22 @@ TRUSTED = ['CPython sorted() is a stable sort (modelled by the proven-stable ins
 ASSUMPTIONS = ['Python str restricted to Latin-1 code points; metadata values restricted to None, int, str',
                'key values of one sort key are all int or all str (Python cannot order None or mixed kinds: TypeError, outside the domain)']
 
+MODELLED_FUNCS = {
+    'sugar/core/cane.py': ['_keyfuncs', '_groupby', '_sorted', '_filter'],
+    'sugar/core/fts.py': ['LocationTuple.range', 'LocationTuple.__lt__', 'Feature.type', 'Feature.id', 'Feature.seqid',
+                          'Feature.__eq__', 'Feature.__lt__', 'Feature.__len__', 'Location.__eq__',
+                          'FeatureList.__and__', 'FeatureList.__rand__', 'FeatureList.__iand__', 'FeatureList.__or__',
+                          'FeatureList.__ror__', 'FeatureList.__ior__', 'FeatureList.__sub__', 'FeatureList.__rsub__',
+                          'FeatureList.__isub__', 'FeatureList.__xor__', 'FeatureList.__rxor__', 'FeatureList.__ixor__',
+                          'FeatureList.get', 'FeatureList.select', 'FeatureList.todict', 'FeatureList.groupby',
+                          'FeatureList.sort', 'FeatureList.filter'],
+    'sugar/core/seq.py': ['BioSeq.__eq__', 'BioSeq.__lt__', 'BioSeq.__len__', 'BioSeq.id',
+                          'BioBasket.__and__', 'BioBasket.__rand__', 'BioBasket.__iand__', 'BioBasket.__or__',
+                          'BioBasket.__ror__', 'BioBasket.__ior__', 'BioBasket.__sub__', 'BioBasket.__rsub__',
+                          'BioBasket.__isub__', 'BioBasket.__xor__', 'BioBasket.__rxor__', 'BioBasket.__ixor__',
+                          'BioBasket.fts', 'BioBasket.add_fts', 'BioBasket.todict', 'BioBasket.sort', 'BioBasket.groupby',
+                          'BioBasket.filter'],
+}
 TYPES = ['CDS', 'cds', 'gene', 'Gene', 'tRNA']
 NAMES = ['a', 'b', 'A', 'ab']
 SEQIDS = ['s1', 's2', 'S1']
@@ -172,8 +191,133 @@ def latin1_cases():
     return out
 
 
+# ----------------------------------------------------------------------------- histories (state-independence stream)
+
+def g_cond_safe(rng, feat):
+    r = rng.random()
+    if r < 0.3:
+        return [rng.choice(['n', 'len']) + '_' + rng.choice(['lt', 'le', 'eq', 'ne', 'ge', 'gt', 'max', 'min']), rng.randrange(0, 4)]
+    if r < 0.5:
+        return ['name_' + rng.choice(['lt', 'le', 'eq', 'ne', 'ge', 'gt', 'max', 'min']), rng.choice(NAMES)]
+    if r < 0.65:
+        return ['type_in', {'l': rng.sample(TYPES, rng.randrange(0, 4))}]
+    if r < 0.75:
+        return ['type_lowerin', {'l': rng.sample(['cds', 'gene', 'trna'], rng.randrange(0, 3))}]
+    if r < 0.85:
+        return ['type_lowereq', rng.choice(['cds', 'gene'])]
+    if r < 0.93:
+        return ['name_contains', rng.choice(['a', 'b', ''])]
+    return ['tag_' + rng.choice(['eq', 'ne']), rng.choice([None, 1, 'q'])]
+
+
+def g_keys_safe(rng, feat, sort):
+    pool = ['name', 'n', 'type', {'c': 'len'}, 'seqid' if feat else 'id']
+    r = rng.random()
+    if r < 0.15:
+        return {'default': True}
+    if r < 0.4:
+        ks = [k for k in rng.sample(pool, rng.choice([1, 2])) if isinstance(k, str)] or ['name']
+        return {'s': ' '.join(ks)}
+    if r < 0.5 and sort:
+        return {'one': rng.choice([None, {'c': 'len'}])}
+    if r < 0.55:
+        return {'one': {'c': 'len'}}
+    return {'t': rng.sample(pool, rng.choice([1, 2, 2, 3])) + ([None] if sort and rng.random() < 0.15 else [])}
+
+
+def g_hist(rng):
+    feat = rng.random() < 0.6
+    g = g_feat if feat else g_seq
+    pool = [g(rng, True, False) for _ in range(rng.choice([2, 3, 4]))]
+    xs = [dict(rng.choice(pool)) for _ in range(rng.choice([1, 2, 3, 4, 5, 6]))]
+    for i, x in enumerate(xs):
+        x['_i'] = i
+    nxt = len(xs)
+    steps = []
+    for _ in range(rng.choice([2, 3, 4, 5, 6])):
+        r = rng.random()
+        if r < 0.28:
+            conds, seen = [], set()
+            for _ in range(rng.choice([0, 0, 1, 1, 2])):
+                c = g_cond_safe(rng, feat)
+                if c[0] not in seen:
+                    seen.add(c[0])
+                    conds.append(c)
+            steps.append({'s': 'filter', 'inplace': rng.random() < 0.25, 'conds': conds})
+        elif r < 0.42:
+            steps.append({'s': 'sort', 'keys': g_keys_safe(rng, feat, True), 'reverse': rng.random() < 0.4})
+        elif r < 0.52:
+            steps.append({'s': 'groupby', 'keys': g_keys_safe(rng, feat, False)})
+        elif r < 0.6 and feat:
+            steps.append({'s': rng.choice(['select', 'get']), 't': g_targ(rng)})
+        elif r < 0.65:
+            steps.append({'s': 'todict'})
+        elif r < 0.85:
+            b = [dict(rng.choice(pool)) for _ in range(rng.choice([0, 1, 2, 3]))]
+            for x in b:
+                x['_i'] = nxt
+                nxt += 1
+            steps.append({'s': 'setop', 'code': rng.randrange(12), 'b': b, 'plain': rng.random() < 0.4})
+        elif r < 0.9:
+            steps.append({'s': 'reverse'})
+        elif r < 0.94:
+            steps.append({'s': 'setitem', 'j': rng.randrange(0, 4), 'i': rng.randrange(0, 4)})
+        else:
+            k = rng.choice(['name', 'n', 'type', 'tag', 'id', 'seqid' if feat else 'id'])
+            v = rng.choice({'name': NAMES, 'n': [0, 1, 2], 'type': TYPES, 'tag': [None, 1, 'q'], 'id': IDS, 'seqid': SEQIDS}[k])
+            steps.append({'s': 'setmeta', 'j': rng.randrange(0, 4), 'k': k, 'v': v})
+    return {'_op': 'hist', '_recv': 'fl' if feat else 'bb', 'xs': xs, 'steps': steps}
+
+
+def g_hattach(rng):
+    k = 0
+    seqs = []
+    for _ in range(rng.choice([1, 2, 3, 4])):
+        sid = rng.choice(SEQIDS + ['s1', 's9'])
+        old = []
+        for _ in range(rng.choice([0, 0, 1])):
+            f = g_feat(rng, True)
+            f['m'] = [kv if kv[0] != 'seqid' else ['seqid', sid] for kv in f['m']]
+            f['_i'] = k
+            k += 1
+            old.append(f)
+        seqs.append([sid, old])
+    steps = []
+    for _ in range(rng.choice([2, 3, 4])):
+        fs = [g_feat(rng, rng.random() < 0.8) for _ in range(rng.choice([0, 1, 2, 3, 4]))]
+        for f in fs:
+            f['_i'] = k
+            k += 1
+        steps.append({'add': rng.random() < 0.5, 'fs': fs, 'plain': rng.random() < 0.5})
+    return {'_op': 'hattach', 'seqs': seqs, 'steps': steps}
+
+
 def gen_cases(rng, tier):
     cases = box_cases(6 if tier == 'thorough' else 3) + latin1_cases()
+    hrng = __import__('random').Random(rng.random())        # own stream: the single-call cases keep their sequence
+    for _ in range(3000 if tier == 'thorough' else 320):
+        cases.append(g_hist(hrng))
+    for _ in range(600 if tier == 'thorough' else 60):
+        cases.append(g_hattach(hrng))
+    for _ in range(400 if tier == 'thorough' else 40):        # |= / ^= with several mutually equal new elements on the right
+        feat = hrng.random() < 0.5
+        g = g_feat if feat else g_seq
+        pool = [g(hrng, True, False) for _ in range(4)]
+        a = [dict(hrng.choice(pool[:2])) for _ in range(hrng.choice([0, 1, 2]))]
+        b = [dict(hrng.choice(pool[1:])) for _ in range(hrng.choice([2, 3, 4, 5]))]
+        for i, x in enumerate(a + b):
+            x['_i'] = i
+        cases.append({'_op': 'setop', '_recv': 'fl' if feat else 'bb', 'code': hrng.choice([9, 9, 11, 1, 5]), 'a': a, 'b': b,
+                      'plain': hrng.random() < 0.5})
+    for _ in range(400 if tier == 'thorough' else 40):        # two conditions on the SAME key
+        xs, feat = g_list(hrng, full=True, wild=False)
+        key = hrng.choice(['n', 'len', 'name'])
+        lo, hi = hrng.sample(['gt', 'ge', 'min', 'ne'], 1)[0], hrng.sample(['lt', 'le', 'max', 'ne', 'eq'], 1)[0]
+        v = (lambda: hrng.choice(NAMES)) if key == 'name' else (lambda: hrng.randrange(0, 4))
+        conds = [[key + '_' + lo, v()], [key + '_' + hi, v()]]
+        if hrng.random() < 0.5:
+            conds.reverse()
+        cases.append({'_op': 'filter', '_recv': 'fl' if feat else 'bb', 'inplace': hrng.random() < 0.3, 'xs': xs, 'conds': conds})
     n = 30000 if tier == 'thorough' else 1800
     for _ in range(n):
         r = rng.random()
@@ -189,6 +333,8 @@ def gen_cases(rng, tier):
             cases.append({'_op': 'filter', '_recv': 'fl' if feat else 'bb', 'inplace': rng.random() < 0.4, 'xs': xs, 'conds': conds})
         elif r < 0.42:
             xs, feat = g_list(rng, full=rng.random() < 0.8)
+            if rng.random() < 0.03:             # a collection holding both kinds: Python raises TypeError (outside the domain)
+                xs.insert(rng.randrange(len(xs) + 1), dict((g_seq if feat else g_feat)(rng, True, False), _i=len(xs)))
             cases.append({'_op': 'sort', '_recv': 'fl' if feat else 'bb', 'xs': xs, 'keys': g_keys(rng, True), 'reverse': rng.random() < 0.4})
         elif r < 0.57:
             xs, feat = g_list(rng)
@@ -208,6 +354,8 @@ def gen_cases(rng, tier):
             b = [dict(rng.choice(pool)) for _ in range(rng.choice([0, 1, 2, 3, 4, 6]))]
             for i, x in enumerate(a + b):
                 x['_i'] = i
+            if rng.random() < 0.04:             # an element of the other kind in the right operand (outside the domain)
+                b.append(dict((g_seq if feat else g_feat)(rng, full, False), _i=len(a) + len(b)))
             cases.append({'_op': 'setop', '_recv': 'fl' if feat else 'bb', 'code': rng.randrange(12), 'a': a, 'b': b,
                           'plain': rng.random() < 0.4})
         else:
@@ -259,9 +407,210 @@ def _val(v):
     return list(v['l']) if isinstance(v, dict) else v
 
 
+def _probe_result(r, sentinel):
+    """mutate a not-in-place result in every way a caller might"""
+    if isinstance(r, dict):
+        for v in list(r.values()):
+            _probe_result(v, sentinel)
+        r.clear()
+    elif hasattr(r, 'data') and isinstance(r.data, list):
+        r.append(sentinel)
+        r.data.reverse()
+        if len(r) > 1:
+            r.pop()
+        r.insert(0, sentinel)
+
+
+def _impl_hist(case):
+    from sugar import BioBasket, FeatureList
+    from framework import canon_exc
+    cls = FeatureList if case.get('_recv', 'fl') == 'fl' else BioBasket
+    feat = cls is FeatureList
+    ident = {}
+
+    def build_all(es):
+        objs = [_build(e) for e in es]
+        for e, o in zip(es, objs):
+            ident[id(o)] = e['_i']
+        return objs
+
+    def ix(objs):
+        return [ident.get(id(o), -1) for o in objs]
+
+    def render(t):
+        if isinstance(t, dict):
+            return [[k, render(v) if isinstance(v, (dict, cls)) else ident.get(id(v), -1)] for k, v in t.items()]
+        if t is None:
+            return None
+        if isinstance(t, cls):
+            return ix(t.data)
+        return ident.get(id(t), -1)
+    sentinel = _build({'f': feat, 'd': 'TTT', 'locs': [[0, 1]], 'm': [['id', 'sentinel']]})
+    objs = build_all(case['xs'])
+    objs0 = list(objs)
+    cur = cls(objs)
+    twin = cls(objs)                     # a second collection built from the same list object
+    earlier = []                         # (what, object, snapshot) that must never change any more
+    out = []
+
+    def check(what):
+        if ix(objs) != ix(objs0):
+            return 'the list the collection was built from changed after ' + what
+        if ix(twin.data) != ix(objs0):
+            return 'a second collection built from the same list changed after ' + what
+        for w, o, snap in earlier:
+            if (render(o) if not isinstance(o, list) else ix(o)) != snap:
+                return '%s changed after %s' % (w, what)
+        return None
+    for n, st in enumerate(case['steps']):
+        k = st['s']
+        what = 'step %d (%s)' % (n, k)
+        try:
+            before = ix(cur.data)
+            call = None
+            if k == 'filter':
+                kw = {a: _val(v) for a, v in st['conds']}
+                if st['inplace']:
+                    r = cur.filter(inplace=True, **kw)
+                    if r is not cur:
+                        out.append({'independence': 'filter(inplace=True) did not return the receiver'})
+                        return out
+                    v = [ix(cur.data), ix(cur.data)]
+                else:
+                    call = lambda: cur.filter(inplace=False, **kw)
+            elif k == 'sort':
+                r = cur.sort(*_pykeys(st['keys']), reverse=st['reverse'])
+                if r is not cur:
+                    out.append({'independence': 'sort did not return the receiver'})
+                    return out
+                v = ix(cur.data)
+            elif k == 'groupby':
+                call = lambda: cur.groupby(*_pykeys(st['keys']))
+            elif k == 'select':
+                call = lambda: cur.select(st['t'])
+            elif k == 'get':
+                call = lambda: cur.get(st['t'])
+            elif k == 'todict':
+                call = lambda: cur.todict()
+            elif k == 'setop':
+                code = st['code']
+                b = build_all(st['b'])
+                fn = [operator.and_, operator.or_, operator.sub, operator.xor][code % 4]
+                ifn = [operator.iand, operator.ior, operator.isub, operator.ixor][code % 4]
+                if code < 4:
+                    B = list(b) if st['plain'] else cls(b)
+                    call = lambda: fn(cur, B)
+                elif code < 8:
+                    B = list(b)
+                    call = lambda: fn(B, cur)
+                else:
+                    B = list(b) if st['plain'] else cls(b)
+                    c0 = cur
+                    cur = ifn(cur, B)
+                    if cur is not c0:
+                        out.append({'independence': 'in-place set operator did not return the receiver'})
+                        return out
+                    v = ix(cur.data)
+                earlier.append(('the other operand of ' + what, B, ix(B) if isinstance(B, list) else render(B)))
+            elif k == 'reverse':
+                cur.data.reverse()
+                v = None
+            elif k == 'setitem':
+                cur.data[st['j']] = cur.data[st['i']]
+                v = None
+            elif k == 'setmeta':
+                tgt = cur.data[st['j']]
+                if st['k'] in ('type', 'id', 'seqid', 'name') and feat or st['k'] == 'id':
+                    setattr(tgt, st['k'], st['v'])          # Feature.type/id/seqid/name, BioSeq.id: aliases of meta entries
+                else:
+                    tgt.meta[st['k']] = st['v']
+                v = None
+            if call is not None:
+                r1 = call()
+                v = render(r1)
+                if k == 'filter':
+                    if r1 is cur or type(r1) is not cls:
+                        out.append({'independence': 'filter(inplace=False) returned the receiver or another class'})
+                        return out
+                    v = [v, before]
+                r2 = call()                                   # (a) the same call again: same answer
+                if render(r2) != (v[0] if k == 'filter' else v):
+                    out.append({'independence': 'repeating %s gave %r, first answer %r' % (what, render(r2), v)})
+                    return out
+                _probe_result(r1, sentinel)                   # (d) mutate the result ...
+                if ix(cur.data) != before:
+                    out.append({'independence': 'the receiver changed (%r -> %r) when the result of %s was modified'
+                                % (before, ix(cur.data), what)})
+                    return out
+                if render(r2) != (v[0] if k == 'filter' else v):
+                    out.append({'independence': 'a second result of %s changed when the first one was modified' % what})
+                    return out
+                if k != 'get':
+                    earlier.append(('the result of ' + what, r2, render(r2)))
+            bad = check(what)
+            if bad:
+                out.append({'independence': bad})
+                return out
+            out.append([v, ix(cur.data)])
+        except Exception as e:
+            out.append(canon_exc(e))
+            return out
+    return out
+
+
+def _impl_hattach(case):
+    from sugar import BioBasket, BioSeq, FeatureList
+    from framework import canon_exc
+    ident = {}
+
+    def build_all(es):
+        objs = [_build(e) for e in es]
+        for e, o in zip(es, objs):
+            ident[id(o)] = e['_i']
+        return objs
+
+    def ix(objs):
+        return [ident.get(id(o), -1) for o in objs]
+    seqs = []
+    for sid, old in case['seqs']:
+        s = BioSeq('ACGT', id=sid)
+        if old:
+            s.fts = FeatureList(build_all(old))
+        seqs.append(s)
+    bk = BioBasket(seqs)
+    out, args = [], []
+    for n, st in enumerate(case['steps']):
+        fs = build_all(st['fs'])
+        arg = list(fs) if st['plain'] else FeatureList(fs)
+        args.append((arg, ix(fs)))
+        held = [(s.fts, ix(s.fts.data)) for s in bk]        # feature lists held before the call
+        try:
+            if st['add']:
+                bk.add_fts(arg)
+            else:
+                bk.fts = arg
+        except Exception as e:
+            out.append(canon_exc(e))
+            return out
+        for a, snap in args:
+            if ix(a if isinstance(a, list) else a.data) != snap:
+                out.append({'independence': 'a feature list passed to the basket changed after step %d' % n})
+                return out
+        for (fl, snap), s in zip(held, bk):
+            if fl is not s.fts and ix(fl.data) != snap:
+                out.append({'independence': 'a replaced feature list was modified in step %d' % n})
+                return out
+        out.append([ix(s.fts.data) for s in bk])
+    return out
+
+
 def impl(case):
     from sugar import BioBasket, FeatureList
     op = case['_op']
+    if op == 'hist':
+        return _impl_hist(case)
+    if op == 'hattach':
+        return _impl_hattach(case)
     cls = FeatureList if case.get('_recv', 'fl') == 'fl' else BioBasket
     ident = {}
 
@@ -319,7 +668,12 @@ def impl(case):
         r = obj.filter(inplace=case['inplace'], **{k: _val(v) for k, v in case['conds']})
         assert type(r) is cls
         assert (r is obj) == bool(case['inplace']), 'inplace flag not respected'
-        return [ix(r.data), ix(obj.data)]
+        res = [ix(r.data), ix(obj.data)]
+        if not case['inplace']:                 # modifying the returned collection must not reach the receiver
+            r.data.append(None)
+            r.data.reverse()
+            assert ix(obj.data) == res[1], 'receiver shares its list with the result of filter(inplace=False)'
+        return res
     if op == 'sort':
         r = obj.sort(*_pykeys(case['keys']), reverse=case['reverse'])
         assert r is obj
@@ -409,8 +763,39 @@ def model_term(case):
         return 'out (VL [VB false; VNone])'
 
 
+def t_step(st, recv):
+    k = st['s']
+    if k == 'filter':
+        return '(HFilter %s %s)' % (coq_bool(st['inplace']), coq_list(['(%s, %s)' % (coq_bs(a), t_fval(v)) for a, v in st['conds']]))
+    if k == 'sort':
+        return '(HSort %s %s)' % (t_keys(st['keys'], recv, 'sort'), coq_bool(st['reverse']))
+    if k == 'groupby':
+        return '(HGroup %s)' % t_keys(st['keys'], recv, 'groupby')
+    if k == 'select':
+        return '(HSelect %s)' % t_targ(st['t'])
+    if k == 'get':
+        return '(HGet %s)' % t_targ(st['t'])
+    if k == 'todict':
+        return 'HTodict'
+    if k == 'setop':
+        return '(HSetop %s %s)' % (coq_N(st['code']), t_elems(st['b']))
+    if k == 'reverse':
+        return 'HReverse'
+    if k == 'setitem':
+        return '(HSetItem %d %d)' % (st['j'], st['i'])
+    if k == 'setmeta':
+        return '(HSetMeta %d %s %s)' % (st['j'], coq_bs(st['k']), t_pv(st['v']))
+    raise ValueError(k)
+
+
 def _model_term(case):
     op = case['_op']
+    if op == 'hist':
+        return 'out (run_C16_hist %s %s)' % (t_elems(case['xs']), coq_list([t_step(st, case['_recv']) for st in case['steps']]))
+    if op == 'hattach':
+        return 'out (run_C16_hattach %s %s)' % (
+            coq_list(['(%s, %s)' % (t_pv(sid), t_elems(old)) for sid, old in case['seqs']]),
+            coq_list(['(%s, %s)' % (coq_bool(st['add']), t_elems(st['fs'])) for st in case['steps']]))
     if op == 'filter':
         r = 'RFilter %s %s %s' % (coq_bool(case['inplace']), t_elems(case['xs']),
                                   coq_list(['(%s, %s)' % (coq_bs(k), t_fval(v)) for k, v in case['conds']]))
@@ -504,6 +889,13 @@ def spec(case, got):
     if isinstance(got, dict) and 'e' in got:
         return 'raised %s inside the domain' % got['e']
     op = case['_op']
+    if op in ('hist', 'hattach'):
+        for n, v in enumerate(got):
+            if isinstance(v, dict) and 'independence' in v:
+                return 'state independence: ' + v['independence']
+            if isinstance(v, dict) and 'e' in v:
+                return 'step %d raised %s inside the domain' % (n, v['e'])
+        return None
     if op == 'filter':
         xs = case['xs']
 
@@ -602,10 +994,42 @@ def spec(case, got):
     return None
 
 
+def extra_checks(rng, tier, cov):
+    """Comparison branches of the anchored code that no collection of Features / BioSeqs reaches (a LocationTuple or a foreign
+    object as an element): executed here against their documented behaviour, without a model."""
+    from sugar import Feature, FeatureList, BioSeq
+    from sugar.core.fts import Location, LocationTuple
+    n = 0
+    for s1, e1, s2, e2 in [(0, 3, 0, 3), (0, 3, 1, 2), (1, 2, 0, 3), (0, 2, 0, 3), (0, 3, 0, 2)]:
+        f, g = Feature('x', start=s1, stop=e1), Feature('y', start=s2, stop=e2)
+        n += 1
+        exp = (s1, e1) < (s2, e2)
+        if (f < g.locs) != exp or (f.locs < g.locs) != exp:
+            yield {'case': {'lt': [s1, e1, s2, e2]}, 'impl': [f < g.locs, f.locs < g.locs], 'spec': 'Feature < LocationTuple must order by range'}
+        got = [x.locs.range for x in FeatureList([g, f]).sort()] if not isinstance(g, LocationTuple) else None
+        if got != sorted([(s1, e1), (s2, e2)]):
+            yield {'case': {'sort': [s1, e1, s2, e2]}, 'impl': got, 'spec': 'default feature order is by range'}
+    f = Feature('x', start=0, stop=3)
+    for what, fn in [('LocationTuple < Feature', lambda: f.locs < f), ('Feature < BioSeq', lambda: f < BioSeq('A')),
+                     ('BioSeq < Feature', lambda: BioSeq('A') < f), ('sort of LocationTuple and Feature', lambda: FeatureList([f, f.locs]).sort())]:
+        n += 1
+        try:
+            fn()
+            yield {'case': {'what': what}, 'impl': 'no error', 'spec': what + ' must raise TypeError'}
+        except TypeError:
+            pass
+    n += 1
+    if Location(0, 1) == 5 or f == 5 or f == BioSeq('A') or (f in [None, 5, BioSeq('A')]):
+        yield {'case': {'what': 'eq foreign'}, 'impl': True, 'spec': 'a Feature / Location equals no foreign object'}
+    cov['extra_relational_checks'] = n
+
+
 def nontrivial(case, got):
     if isinstance(got, dict):
         return None
     op = case['_op']
+    if op in ('hist', 'hattach'):
+        return op if len(got) >= 2 and all(isinstance(v, list) for v in got) else None
     if op == 'filter':
         return 'filter' if got[0] and len(got[0]) < len(case['xs']) else None
     if op == 'sort':
@@ -625,6 +1049,13 @@ def nontrivial(case, got):
 
 def histkey(case, got):
     op = case['_op']
+    if op in ('hist', 'hattach'):
+        hk = ['op=' + op, 'steps=%d' % len(case['steps'])]
+        if op == 'hist':
+            hk += ['hstep=' + st['s'] + ('/inplace' if st.get('inplace') or st.get('code', 0) >= 8 else '') for st in case['steps']]
+        if got and isinstance(got[-1], dict):
+            hk.append('raises=' + got[-1].get('e', 'independence'))
+        return hk
     n = len(case.get('xs', case.get('a', case.get('fs', []))))
     hk = ['op=' + (SETOPS[case['code']] if op == 'setop' else op), 'n=' + ('0' if n == 0 else '1' if n == 1 else '2-4' if n <= 4 else '5+'),
           'recv=' + case.get('_recv', 'bb')]
@@ -663,6 +1094,53 @@ def python_snippet(case):
     cls = 'FeatureList' if case.get('_recv', 'fl') == 'fl' else 'BioBasket'
     head = 'from sugar import BioSeq, BioBasket, Feature, FeatureList; from sugar.core.fts import Location\n'
     op = case['_op']
+    if op == 'hist':
+        s = head + 'x = %s(%s)\n' % (cls, pl(case['xs']))
+        for st in case['steps']:
+            k = st['s']
+            if k == 'filter':
+                call = 'x.filter(inplace=%r, **%r)' % (st['inplace'], {a: _val(v) for a, v in st['conds']})
+            elif k == 'sort':
+                a = pk(st['keys'])
+                call = 'x.sort(%s%sreverse=%r)' % (a, ', ' if a else '', st['reverse'])
+            elif k == 'groupby':
+                call = 'x.groupby(%s)' % pk(st['keys'])
+            elif k in ('select', 'get'):
+                call = 'x.%s(%r)' % (k, st['t'])
+            elif k == 'todict':
+                call = 'x.todict()'
+            elif k == 'setop':
+                sym = ['&', '|', '-', '^'][st['code'] % 4]
+                b = pl(st['b']) if st['plain'] or 4 <= st['code'] < 8 else '%s(%s)' % (cls, pl(st['b']))
+                if st['code'] >= 8:
+                    s += 'x %s= %s; print(x)\n' % (sym, b)
+                    continue
+                call = ('%s %s x' % (b, sym)) if st['code'] >= 4 else ('x %s %s' % (sym, b))
+            elif k == 'reverse':
+                s += 'x.data.reverse()\n'
+                continue
+            elif k == 'setitem':
+                s += 'x.data[%d] = x.data[%d]\n' % (st['j'], st['i'])
+                continue
+            else:
+                s += 'x.data[%d].meta[%r] = %r\n' % (st['j'], st['k'], st['v'])
+                continue
+            if k == 'filter' and st['inplace'] or k == 'sort':
+                s += 'print(%s)\n' % call
+            else:
+                s += ('r = %s; print(r); before = list(x.data)\n'
+                      'if hasattr(r, "data"): r.data.append(None); r.data.reverse()   # modifying the result must not reach the receiver\n'
+                      'assert [id(o) for o in x.data] == [id(o) for o in before], "receiver changed"\n') % call
+        return s
+    if op == 'hattach':
+        s = head + 'seqs = BioBasket([%s])\n' % ', '.join('BioSeq("ACGT", id=%r)' % (sid,) for sid, _ in case['seqs'])
+        for n, (sid, old) in enumerate(case['seqs']):
+            if old:
+                s += 'seqs[%d].fts = FeatureList(%s)\n' % (n, pl(old))
+        for st in case['steps']:
+            s += ('seqs.add_fts(%s)\n' if st['add'] else 'seqs.fts = %s\n') % pl(st['fs'])
+            s += 'print([list(s.fts) for s in seqs])\n'
+        return s
     if op == 'setop':
         sym = ['&', '|', '-', '^'][case['code'] % 4]
         a, b = pl(case['a']), pl(case['b'])
@@ -691,17 +1169,26 @@ def python_snippet(case):
     return s + 'print(x.todict())'
 
 
-LEVEL_TEXT = ('Machine-checked Coq theorems about an executable model of sugar\'s collection helpers, for all lists: filter returns '
-              'exactly List.filter of the conjunction of the conditions (order kept, receiver untouched unless inplace); the key-by-key '
-              'loop of stable sorts equals ONE stable insertion sort by the lexicographic order on the key tuple, hence a sorted '
-              'permutation in which elements with equal key tuples keep their input order (also with reverse); groupby returns exactly the '
-              'nested first-occurrence-ordered grouping (spec_tree) whose leaves are the filters by key path; get/select/set operators/attach-by-seqid specifications. The model is tied to /repo by differential '
-              'testing of the public methods on every run.')
+LEVEL_TEXT = ('Machine-checked Coq theorems (25, all closed) about an executable model of sugar\'s collection helpers, for all lists: '
+              'filter = List.filter of the conjunction of the conditions (order kept, receiver replaced only with inplace; aliases '
+              'max/min/in/lowerin/lowereq); the key-by-key loop of stable sorts equals ONE stable insertion sort by the lexicographic '
+              'order of the key tuple, hence a sorted permutation in which equal key tuples keep input order, also with reverse, '
+              'with the default orders (sequences by id; features by seqid then range) spelled out; groupby returns exactly the nested '
+              'first-occurrence-ordered grouping (spec_tree), groups non-empty and equal to the filters by key path; get/select = '
+              'first/all case-insensitive type matches, total on type-less features; todict binds each id (first-occurrence order) to its '
+              'last element; &,|,-,^ with in-place and reflected forms: membership under element equality (proved to be an equivalence '
+              'relation), order preserving; basket.fts= / add_fts attach by seqid (first sequence with an id wins, unknown or missing '
+              'seqids stay unattached). The model is tied to /repo by differential testing of the public methods on every run, including '
+              'multi-call histories on one object that probe aliasing between receiver, operands and results.')
 LEVEL_NOTE = ('Trusted: Coq kernel/vm_compute, the correspondence harness, CPython sorted() being a stable sort (modelled by a '
-              'proven-stable insertion sort and compared on tie-heavy inputs), dict order, str.lower/split/rsplit. Modelled rather than '
-              'verified: cane._keyfuncs/_groupby/_sorted/_filter, FeatureList/BioBasket get/select/todict/groupby/sort/filter, set '
-              'operators, fts setter/add_fts, Feature/BioSeq __eq__/__lt__. Domain: values None/int/str, key values orderable, metadata keys '
-              'not shadowing mapping methods (F20). Features without a seqid are inside the domain of basket.fts= / add_fts (they stay '
-              'unattached; fixed in /repo 8b1b464, witness in corpus/C16). All theorems closed under the '
-              'global context (no axioms).')
+              'proven-stable insertion sort and compared on tie-heavy inputs and an exhaustive box), dict order, str.lower/split/rsplit '
+              '(compared on all 256 Latin-1 code points). Modelled rather than verified: cane._keyfuncs/_groupby/_sorted/_filter, '
+              'FeatureList/BioBasket get/select/todict/groupby/sort/filter, set operators, fts setter/add_fts, Feature/BioSeq __eq__/__lt__ '
+              '(MODELLED_FUNCS: 212/212 statements executed in the quick tier; the branches for a LocationTuple or a foreign object as a '
+              'collection element - fts.py:101,209-210,360,370-373, seq.py:258-259 - are reached only by the mixed-kind cases and '
+              'extra_checks, outside wf_C16). Tested only (not expressible in the pure model): object identity / aliasing (in-place forms '
+              'return the receiver, not-in-place results share no list with receiver, operands or earlier results) via the history '
+              'stream. Domain: values None/int/str, key values orderable, one kind of element per collection, metadata keys not shadowing '
+              'mapping methods (F20, list regenerated from dir(Meta)); filter operators outside the 12 documented ones are outside. '
+              'All theorems closed under the global context (no axioms).')
 TECHNIQUE = 'Coq proof over an executable Gallina model + differential correspondence with /repo'
